@@ -10,6 +10,7 @@
     event list) every verdict of the function-level and of the history monitor is `none`.
 -/
 import OidcModel.Model.RPBrowser
+import OidcModel.GoTac
 namespace C17
 theorem find_map_key (ps : List (String × String)) (k v : String) (h : ps.any (·.1 == k) = true) :
     (ps.map (fun p => if p.1 == k then (k, v) else p)).find? (·.1 == k) = some (k, v) := by
@@ -116,6 +117,20 @@ theorem verifier_param2 (base : List (String × String)) (urlParam : List UrlOpt
     simp only [List.mem_cons, List.mem_nil_iff, or_false] at hp
     rcases hp with rfl | rfl <;> simp
 
+/-- characterisation of the regenerated `CheckQueryCookie`: it answers a value exactly when `CheckCookie` answers that value and
+    the value equals the form value of the same name (shape-independent: `go_char`) -/
+theorem checkQueryCookie_ok_iff (now : Int) (ch : CookieHandler) (r : HttpReq) (name v : String) :
+    CheckQueryCookie now ch r name = .ok v ↔ (CheckCookie now ch r name = .ok v ∧ v = r.FormValue name) := by
+  go_char CheckQueryCookie
+
+/-- characterisation of the regenerated `tryReadStateCookie` for an RP with a cookie handler -/
+theorem tryReadStateCookie_eq (now : Int) (w : World) (r : HttpReq) (rp : RP) (ch : CookieHandler) (h : rp.cookieHandler = some ch) :
+    tryReadStateCookie now w r rp =
+      (match CheckQueryCookie now ch r "state" with
+       | .error e => (w, .error e)
+       | .ok s => (DeleteCookie now ch w "state", .ok s)) := by
+  go_char tryReadStateCookie RP.CookieHandler Go.isNil Go.notNil Nilable.isNil Go.getOpt stateParam
+
 theorem callback_core (now : Int) (rp : RP) (ch : CookieHandler) (h : rp.cookieHandler = some ch)
     (urlParam : List UrlOpt) (r : HttpReq) :
     judgeCallback (cfgOf rp ch) r.cookies r.form
@@ -124,65 +139,73 @@ theorem callback_core (now : Int) (rp : RP) (ch : CookieHandler) (h : rp.cookieH
   have hs := (checkCookie_spec now rp ch r "state").symm
   have hp := (checkCookie_spec now rp ch r "pkce").symm
   have hpkce : (cfgOf rp ch).pkce = rp.pkce := rfl
-  unfold CodeExchangeHandler tryReadStateCookie CheckQueryCookie
-  simp only [RP.CookieHandler, h, Go.isNil, Go.notNil, Nilable.isNil, Go.getOpt, stateParam, pkceCode, Option.getD_some, Option.isNone_some]
-  cases hcs : CheckCookie now ch r "state" with
+  unfold CodeExchangeHandler
+  rw [tryReadStateCookie_eq now [] r rp ch h]
+  simp only [RP.CookieHandler, h, Go.isNil, Go.notNil, Nilable.isNil, Go.getOpt, pkceCode, Option.getD_some, Option.isNone_some]
+  cases hqc : CheckQueryCookie now ch r "state" with
   | error e =>
-    rw [hcs] at hs; simp only [toOpt] at hs
-    simp [setCookiesOf, judgeCallback, observeCallback, unauthorizedError, hs]
+    have hne : ¬ signedValue (cfgOf rp ch) r.cookies "state" = some (formValue r.form "state") := by
+      intro heq
+      rw [heq] at hs
+      cases hcc : CheckCookie now ch r "state" with
+      | error e' => rw [hcc] at hs; simp [toOpt] at hs
+      | ok v =>
+        rw [hcc] at hs
+        simp only [toOpt, Option.some.injEq] at hs
+        have hok : CheckQueryCookie now ch r "state" = .ok v :=
+          (checkQueryCookie_ok_iff now ch r "state" v).2 ⟨hcc, hs.symm.trans rfl⟩
+        rw [hqc] at hok
+        cases hok
+    simp [setCookiesOf, judgeCallback, observeCallback, unauthorizedError, hne]
   | ok s =>
+    obtain ⟨hcs, hq⟩ := (checkQueryCookie_ok_iff now ch r "state" s).1 hqc
     rw [hcs] at hs; simp only [toOpt] at hs
-    by_cases hq : s = r.FormValue "state"
-    · have hq' : (s != r.FormValue "state") = false := by simp [hq]
-      have hfv : formValue r.form "state" = s := by rw [hq]; rfl
-      simp only [hq', Bool.false_eq_true, if_false]
-      by_cases herr : (r.FormValue "error" != "") = true
-      · simp only [herr, if_true]
-        cases hcp : signedValue (cfgOf rp ch) r.cookies "pkce" <;>
-          simp [setCookiesOf, judgeCallback, observeCallback, errorHandler, DeleteCookie, Http.SetCookie, hs, hfv, hcp]
-      · simp only [herr, Bool.false_eq_true, if_false]
-        by_cases hpk : rp.pkce = true
-        · simp only [RP.IsPKCE, hpk, if_true]
-          cases hcp : CheckCookie now ch r "pkce" with
-          | error e =>
-            rw [hcp] at hp; simp only [toOpt] at hp
-            simp [setCookiesOf, judgeCallback, observeCallback, unauthorizedError, DeleteCookie, Http.SetCookie, hs, hp, hfv, hpkce, hpk]
-          | ok v =>
-            rw [hcp] at hp; simp only [toOpt] at hp
-            simp only [CodeExchange, RP.Signer, RP.OAuthConfig, RP.Issuer]
-            rcases (show rp.signer = none ∨ ∃ sg, rp.signer = some sg by cases rp.signer <;> simp) with hsg | ⟨sg, hsg⟩
-            · simp only [hsg, Option.isNone_none, Bool.not_true, Bool.false_eq_true, if_false]
-              generalize rp.provider _ = res
-              cases res <;>
-                simp [setCookiesOf, judgeCallback, observeCallback, unauthorizedError, appCallback, DeleteCookie, Http.SetCookie,
-                  hs, hp, hfv, hpkce, hpk, verifier_param1]
-            · simp only [hsg, Option.isNone_some, Bool.not_false, if_true, SignedJWTProfileAssertion]
-              cases hok : sg.ok
-              · simp [setCookiesOf, judgeCallback, observeCallback, unauthorizedError, DeleteCookie, Http.SetCookie, hs, hp, hfv, hpkce, hpk]
-              · simp only [if_true]
-                generalize rp.provider _ = res
-                cases res <;>
-                  simp [setCookiesOf, judgeCallback, observeCallback, unauthorizedError, appCallback, DeleteCookie, Http.SetCookie,
-                    hs, hp, hfv, hpkce, hpk, verifier_param2]
-        · simp only [RP.IsPKCE, hpk, Bool.false_eq_true, if_false]
+    have hfv : formValue r.form "state" = s := by rw [hq]; rfl
+    simp only []
+    by_cases herr : (r.FormValue "error" != "") = true
+    · simp only [herr, if_true]
+      cases hcp : signedValue (cfgOf rp ch) r.cookies "pkce" <;>
+        simp [setCookiesOf, judgeCallback, observeCallback, errorHandler, DeleteCookie, Http.SetCookie, hs, hfv, hcp]
+    · simp only [herr, Bool.false_eq_true, if_false]
+      by_cases hpk : rp.pkce = true
+      · simp only [RP.IsPKCE, hpk, if_true]
+        cases hcp : CheckCookie now ch r "pkce" with
+        | error e =>
+          rw [hcp] at hp; simp only [toOpt] at hp
+          simp [setCookiesOf, judgeCallback, observeCallback, unauthorizedError, DeleteCookie, Http.SetCookie, hs, hp, hfv, hpkce, hpk]
+        | ok v =>
+          rw [hcp] at hp; simp only [toOpt] at hp
           simp only [CodeExchange, RP.Signer, RP.OAuthConfig, RP.Issuer]
           rcases (show rp.signer = none ∨ ∃ sg, rp.signer = some sg by cases rp.signer <;> simp) with hsg | ⟨sg, hsg⟩
           · simp only [hsg, Option.isNone_none, Bool.not_true, Bool.false_eq_true, if_false]
             generalize rp.provider _ = res
             cases res <;>
               simp [setCookiesOf, judgeCallback, observeCallback, unauthorizedError, appCallback, DeleteCookie, Http.SetCookie,
-                hs, hfv, hpkce, hpk]
+                hs, hp, hfv, hpkce, hpk, verifier_param1]
           · simp only [hsg, Option.isNone_some, Bool.not_false, if_true, SignedJWTProfileAssertion]
             cases hok : sg.ok
-            · simp [setCookiesOf, judgeCallback, observeCallback, unauthorizedError, DeleteCookie, Http.SetCookie, hs, hfv, hpkce, hpk]
+            · simp [setCookiesOf, judgeCallback, observeCallback, unauthorizedError, DeleteCookie, Http.SetCookie, hs, hp, hfv, hpkce, hpk]
             · simp only [if_true]
               generalize rp.provider _ = res
               cases res <;>
                 simp [setCookiesOf, judgeCallback, observeCallback, unauthorizedError, appCallback, DeleteCookie, Http.SetCookie,
-                  hs, hfv, hpkce, hpk]
-    · have hq' : (s != r.FormValue "state") = true := by simp [hq]
-      have hfv : formValue r.form "state" ≠ s := fun e => hq (e.symm.trans rfl)
-      simp [setCookiesOf, hq', judgeCallback, observeCallback, unauthorizedError, hs, Ne.symm hfv]
+                  hs, hp, hfv, hpkce, hpk, verifier_param2]
+      · simp only [RP.IsPKCE, hpk, Bool.false_eq_true, if_false]
+        simp only [CodeExchange, RP.Signer, RP.OAuthConfig, RP.Issuer]
+        rcases (show rp.signer = none ∨ ∃ sg, rp.signer = some sg by cases rp.signer <;> simp) with hsg | ⟨sg, hsg⟩
+        · simp only [hsg, Option.isNone_none, Bool.not_true, Bool.false_eq_true, if_false]
+          generalize rp.provider _ = res
+          cases res <;>
+            simp [setCookiesOf, judgeCallback, observeCallback, unauthorizedError, appCallback, DeleteCookie, Http.SetCookie,
+              hs, hfv, hpkce, hpk]
+        · simp only [hsg, Option.isNone_some, Bool.not_false, if_true, SignedJWTProfileAssertion]
+          cases hok : sg.ok
+          · simp [setCookiesOf, judgeCallback, observeCallback, unauthorizedError, DeleteCookie, Http.SetCookie, hs, hfv, hpkce, hpk]
+          · simp only [if_true]
+            generalize rp.provider _ = res
+            cases res <;>
+              simp [setCookiesOf, judgeCallback, observeCallback, unauthorizedError, appCallback, DeleteCookie, Http.SetCookie,
+                hs, hfv, hpkce, hpk]
 
 
 /-- custom URL parameters of the application do not overwrite the parameters the property speaks about -/
@@ -607,7 +630,7 @@ theorem c17_history (now : Int) (rp : RP) (ch : CookieHandler) (h : rp.cookieHan
 
 /-! ### non-vacuity: concrete accepted and rejected cases (closed terms, evaluated by the kernel) -/
 
-def exCh : CookieHandler := { securecookie := { hashKey := 1, blockKey := 2 } }
+def exCh : CookieHandler := { securecookie := { hashKey := [1], blockKey := [2] } }
 def exRP : RP :=
   { oauthConfig := { ClientID := "client", RedirectURL := "https://rp/cb", Scopes := ["openid", "email"],
                      Endpoint := { AuthURL := "https://op/auth", TokenURL := "https://op/token" } },
@@ -616,24 +639,24 @@ def exQuery : List (String × String) := [("state", "s1"), ("code", "c")]
 
 /-- accepted: own cookies, matching state -> one token request with the cookie's verifier, callback runs -/
 example : observeCallback (CodeExchangeHandler 0 exRP [] []
-    { cookies := [{ Name := "state", Value := .minted 1 2 "state" "s1" }, { Name := "pkce", Value := .minted 1 2 "pkce" "v1" }],
+    { cookies := [{ Name := "state", Value := .minted [1] [2] "state" "s1" }, { Name := "pkce", Value := .minted [1] [2] "pkce" "v1" }],
       form := exQuery }) =
     { tokenRequests := [{ clientID := "client", params := [("grant_type", "authorization_code"), ("code", "c"),
         ("redirect_uri", "https://rp/cb"), ("code_verifier", "v1")] }], callback := some "s1" } := by decide
 
 /-- rejected: state cookie minted under another hash key -/
 example : observeCallback (CodeExchangeHandler 0 exRP [] []
-    { cookies := [{ Name := "state", Value := .minted 9 2 "state" "s1" }, { Name := "pkce", Value := .minted 1 2 "pkce" "v1" }],
+    { cookies := [{ Name := "state", Value := .minted [9] [2] "state" "s1" }, { Name := "pkce", Value := .minted [1] [2] "pkce" "v1" }],
       form := exQuery }) = { unauthorized := true } := by decide
 
 /-- rejected: the pkce cookie replayed under the state name, no state parameter -/
 example : observeCallback (CodeExchangeHandler 0 exRP [] []
-    { cookies := [{ Name := "state", Value := .minted 1 2 "pkce" "" }, { Name := "pkce", Value := .minted 1 2 "pkce" "v1" }],
+    { cookies := [{ Name := "state", Value := .minted [1] [2] "pkce" "" }, { Name := "pkce", Value := .minted [1] [2] "pkce" "v1" }],
       form := [("code", "c")] }) = { unauthorized := true } := by decide
 
 /-- rejected: valid state, pkce cookie is garbage -/
 example : observeCallback (CodeExchangeHandler 0 exRP [] []
-    { cookies := [{ Name := "state", Value := .minted 1 2 "state" "s1" }, { Name := "pkce", Value := .plain "MTcz" }],
+    { cookies := [{ Name := "state", Value := .minted [1] [2] "state" "s1" }, { Name := "pkce", Value := .plain "MTcz" }],
       form := exQuery }) = { unauthorized := true } := by decide
 
 /-- the hypotheses of `c17_history` are satisfiable and an exchange really happens in a history:
